@@ -200,14 +200,14 @@ PROPS["C03"] = {
     "level": "exploration",
     "technique": "property testing with planted 64-bit key collisions (in-package export) and question-stamped upstream answers through every lookup route of the real chain; round-trip/differential test of wire vs presentation keying over all label octets",
     "level_text": ("A question is resolved and cached through the real default chain; a near-miss question differing in exactly one dimension (ASCII case, bit 0x20 of a non-letter octet, label boundary, one octet, type, class, CD, ECS source, whole name; escaped and binary labels included) is then looked up after the first entry has been planted under the near-miss's 64-bit key. "
-                   "Because the upstream stamps answers with a digest of the question asked, any reply shows whose data it carries: through the decoded and wire ingress, alias chase, Store.Get, explicit-partition admission, purge, RFC 9520 failure lookups (with planted failure-key collisions) and a background refresh answering another question, the near-miss must behave as a miss, while case-only variants and in-scope audiences must hit. "
+                   "Because the upstream stamps answers with a digest of the question asked, any reply shows whose data it carries: through the decoded and wire ingress, alias chase, Store.Get, explicit-partition admission, purge, RFC 9520 failure lookups (with planted failure-key collisions) and a background refresh answering another question, the near-miss must behave as a miss, while case-only variants and in-scope audiences must hit. Two further routes end every case: a validated NXDOMAIN subtree cut is recorded for a name derived from the first question (through the store's resolver-facing admission) and the near-miss, a child of it and a look-alike whose first label holds a literal dot are asked through both ingresses in generated order - NXDOMAIN (which this stub never produces) may only come back for CD=0 questions of the cut's class at or below the denied name, label by label; and a zone failure recorded for a derived zone may answer SERVFAIL without upstream traffic only at or below that zone. "
                    "A second unit checks KeyWire==Key, KeyWireWithPrefix==KeyWithPrefix and WireNameEqualsPresentation over arbitrary label octets. Exploration."),
-    "level_note": "Trusted: fnv digest stamping in the stub; netip for the audience relation. Collisions are planted through a verif-tagged export in the cache package rather than found; subtree-cut key collisions are not planted (cuts need resolver provenance).",
+    "level_note": "Trusted: fnv digest stamping in the stub; netip for the audience relation. Collisions are planted through a verif-tagged export in the cache package rather than found; subtree-cut key collisions are not planted; the cut is recorded directly through Store.RecordNXDomainCut with a structurally complete proof rather than through a validating resolver.",
     "rule": ("evaluations = (stored question, looked-up question, route list) cases and key cases. Non-trivial = a collision was actually planted or the pair is the same question in another spelling; distinct = hash(dimension, both questions, routes)."),
     "units": {
         "routes": {"pkg": "./server", "run": "^TestVerifC03Routes$",
                    "tiers": {"quick": T(1200, 8, timeout=600), "thorough": T(40000, 12, timeout=3400)},
-                   "floors": {"C03.routes": {"planted": 0.4, "failure-planted": 0.2, "same-question-variant": 0.15, "mismatched-refresh": 0.03, "store-set": 0.1}}},
+                   "floors": {"C03.routes": {"planted": 0.4, "failure-planted": 0.2, "same-question-variant": 0.15, "mismatched-refresh": 0.03, "store-set": 0.1, "cut-served": 0.3, "zone-failure-served": 0.3}}},
         "keys": {"pkg": "./internal/cache", "run": "^TestVerifC03Keys$",
                  "tiers": {"quick": T(20000, 2, timeout=300), "thorough": T(600000, 4, timeout=3000)}},
     },
